@@ -25,6 +25,8 @@ type sink interface {
 var (
 	reHex = regexp.MustCompile(`0x[0-9a-fA-F]+|[0-9a-fA-F]{8,}`)
 	reNum = regexp.MustCompile(`[0-9]+`)
+	// "missing trie node <hash> (path <nibbles>)": the nibble path is data
+	rePath = regexp.MustCompile(`\(path [0-9a-fA-F]*\)`)
 )
 
 // stable turns an error / panic text into a signature-safe string.
@@ -32,6 +34,7 @@ func stable(s string) string {
 	if i := strings.IndexByte(s, '\n'); i >= 0 {
 		s = s[:i]
 	}
+	s = rePath.ReplaceAllString(s, "(path)")
 	s = reHex.ReplaceAllString(s, "X")
 	s = reNum.ReplaceAllString(s, "N")
 	if len(s) > 100 {
